@@ -396,3 +396,23 @@ func VerifClass(r *NetworkRule) int {
 	}
 	return 1
 }
+
+// VerifRequestEqual compares every field of two requests.
+func VerifRequestEqual(a, b *Request) bool {
+	if a.ClientIP != b.ClientIP || a.ClientName != b.ClientName || a.URL != b.URL || a.URLLowerCase != b.URLLowerCase ||
+		a.Hostname != b.Hostname || a.Domain != b.Domain || a.SourceURL != b.SourceURL || a.SourceHostname != b.SourceHostname ||
+		a.SourceDomain != b.SourceDomain || a.RequestType != b.RequestType || a.DNSType != b.DNSType ||
+		a.ThirdParty != b.ThirdParty || a.IsHostnameRequest != b.IsHostnameRequest {
+		return false
+	}
+	if len(a.SortedClientTags) != len(b.SortedClientTags) {
+		return false
+	}
+	eq := true
+	for i := range a.SortedClientTags {
+		if a.SortedClientTags[i] != b.SortedClientTags[i] {
+			eq = false
+		}
+	}
+	return eq
+}
